@@ -513,6 +513,11 @@ impl WorldB {
                     obs.count("oracle.C04.completeness");
                     if !matches!(res, Res::Payload { .. }) {
                         obs.violate("C04", "genuine-in-window-payload-not-surfaced", "server", format!("datagram {} seq {} from client {}", ix, seq, id));
+                        // C16: a datagram at the top of the size range (a payload within the documented limit plus its header) is a
+                        // value the library built; its own receive path decodes it
+                        if self.ledger[ix].bytes.len() > 1300 {
+                            obs.violate("C16", "library-built-datagram-refused-by-receive-path", "server/near-maximum-payload", format!("{} bytes, seq {}", self.ledger[ix].bytes.len(), seq));
+                        }
                         // C07: if an unauthentic datagram claiming this sequence (modulo the window size) reached this address
                         // before, it is what made the receiver refuse the genuine one
                         let dst = self.ledger[ix].dst;
